@@ -10,7 +10,7 @@ The format table below transcribes the decoder tables of `src/decode/{uncompress
 bi_planar,bc,astc}.rs` (family, block shape, encoded unit size, native colours in list order,
 specialised whole-image colour).
 -/
-namespace Dds.Drv
+namespace Dds.Drv.C05
 open Dds Dds.Addr
 
 inductive Family where
@@ -246,4 +246,8 @@ def runC05 (line : String) : String :=
     | _, _ => "bad-case"
   | _ => "bad-case"
 
+end Dds.Drv.C05
+
+namespace Dds.Drv
+def runC05 : String → String := C05.runC05
 end Dds.Drv
